@@ -70,7 +70,7 @@ Print Assumptions C05_reset_installs_state.
    component theorems above.  Spec definitions in Model/UndoSpec.v; proofs in
    Proofs/UndoStepProofs.v (+ UndoStepOpts.v).
    ------------------------------------------------------------------------------------------ *)
-From StgV Require Import Model.UndoSpec Proofs.UndoStepProofs.
+From StgV Require Import Model.UndoSpec Proofs.UndoStepProofs Proofs.UndoTwice.
 
 (* `stg undo` on a stack whose newest log entry [so] was written by an ordinary operation puts
    the stack back to the state [pst] recorded by the entry before it - the three lists, every
@@ -119,6 +119,20 @@ Theorem C05_undo_undoes_step :
     at_state w2 st0.
 Proof. exact undo_undoes_step. Qed.
 Print Assumptions C05_undo_undoes_step.
+
+(* `stg undo -n 2` reaches the same stack as two single `stg undo`s - the world-level form of
+   C05_undo_n_is_n_undos, external modifications included (proof in Proofs/UndoTwice.v); the work
+   tree is not in the statement: after `stg hide` of an applied patch it may differ *)
+Theorem C05_undo_2_is_two_undos :
+  forall w hard w1 w2 w3,
+    Inv6 w -> prev_decreasing (w_objs w) ->
+    run_undo w 1 hard = (w1, X0) ->
+    run_undo w1 1 hard = (w2, X0) ->
+    run_undo w 2 hard = (w3, X0) ->
+    exists st2 st3, cur_state w2 = Some st2 /\ cur_state w3 = Some st3
+                    /\ same_stack st2 st3 /\ w_branch w2 = w_branch w3.
+Proof. exact undo_2_is_two_undos. Qed.
+Print Assumptions C05_undo_2_is_two_undos.
 
 (* the hypotheses are satisfiable: a world reached by commands on which undo really succeeds *)
 Theorem C05_undo_step_nonvacuous :
